@@ -9,7 +9,8 @@ from props.parts import _tracksv2_gen as G
 LEAN_MODULES = ["Properties.C01V2"]
 THEOREMS = ["EngineModel.Properties.C01V2." + t for t in [
     "v2_C01_roundtrip", "v2_C01_reject", "v2_C01_total", "v2_C01_fixed_point", "v2_C01_second_write",
-    "v2_C01_representable", "v2_C01_db_create", "v2_C01_db_update", "v2_C01_db_reject"]]
+    "v2_C01_representable", "v2_C01_db_create", "v2_C01_db_update", "v2_C01_db_reject",
+    "v2_C01_table_create", "v2_C01_table_update", "v2_C01_table_second_write"]]
 ASSUMPTIONS = [
     "2.x: the Track table is modelled as a store of track_row values (tablePut: whole-second time stamps, SQL REAL "
     "for bpmAnalyzed, one-byte label prefix of the cue/loop blobs, UNIQUE(path)); the table layer itself is C18's "
@@ -46,7 +47,7 @@ def _case_script(c):
 def _prior(rng, tier, uniq):
     p = G.gen_snapshot(rng, tier, uniq, valid_bias=1.0)
     # keep the prior acceptable whatever the generator drew
-    p["waveform"] = p["waveform"] if p.get("sample_count") and isinstance(p.get("sample_rate"), float) else b""
+    G.storable_waveform(p)
     if isinstance(p.get("sample_rate"), str):
         p["sample_rate"] = 44100.0
     return p
